@@ -23,7 +23,7 @@ def floors(tier):
     return {'distinct_nontrivial': 1000 if tier == 'quick' else 80000, 'inverse_returned': 700, 'two_sided_checked': 700,
             'singular_operands_seen': 40, 'zerodivision_checked_against_oracle': 40, 'division_checked': 300,
             'number_over_x_checked': 150, 'negative_power_checked': 150, 'd5_closed_form_cases': 40, 'd6plus_iterative_cases': 30,
-            'padded_or_permuted_layouts': 300}
+            'padded_or_permuted_layouts': 300, 'empty_dividends': 60}
 
 
 def plan(tier, seed):
@@ -190,7 +190,11 @@ def one_operand(ctx, alg, iso, cfg, name, canon, unit):
     # division, number / x, negative powers
     rng = ctx.rng
     ka = gen.random_subset(rng, canon, min(unit['cap'], 4), 1)
-    a = ops.value_mv(alg, ka, {k: Fr(gen.small_int(rng, -3, 3)) for k in ka})
+    r_ = rng.random()
+    if r_ < 0.12:
+        ka = ()                     # the empty multivector as dividend: 0 / b must be 0
+        ctx.count('empty_dividends')
+    a = ops.value_mv(alg, ka, {k: (Fr(0) if 0.12 <= r_ < 0.2 else Fr(gen.small_int(rng, -3, 3))) for k in ka})
     st3, q = ctx.guarded(to, lambda: a / x)
     if st3 == 'ok':
         ctx.count('division_checked')
